@@ -67,8 +67,15 @@ func engineAnswer(cwd, dbPath, personal, rawQuery string, limitFlag int, platfor
 // c17Cmd draws entries whose texts are printable single-line ASCII (so every output
 // format can be parsed back) and never contain ESC.
 func c17DB(t *rapid.T) []database.Command {
-	cmds, _ := gen.DB(t, gen.CmdOpts{Platforms: true}, []int{1, 1, 3, 8, 0})
+	cmds, _ := gen.DB(t, gen.CmdOpts{Platforms: true, Long: true}, []int{1, 1, 3, 8, 0})
 	for i := range cmds {
+		if rapid.IntRange(0, 7).Draw(t, "sized-cell") == 0 {
+			// command and category cells whose byte length and character count differ (table cells are cut at fixed widths)
+			cmds[i].Command = gen.SizedText(t, true)
+			if rapid.Bool().Draw(t, "sized-niche") {
+				cmds[i].Niche = gen.SizedText(t, false)
+			}
+		}
 		cmds[i].Command = strings.Join(strings.Fields(cmds[i].Command), " ")
 		cmds[i].Description = strings.Join(strings.Fields(cmds[i].Description), " ")
 		if cmds[i].Command == "" {
@@ -78,6 +85,7 @@ func c17DB(t *rapid.T) []database.Command {
 	return cmds
 }
 
+// parseTable returns the body rows of the table format with the row number column removed.
 func parseTable(stdout string) []string {
 	var rows []string
 	body := false
@@ -89,11 +97,11 @@ func parseTable(stdout string) []string {
 		if !body || l == "" || strings.HasPrefix(l, "Search completed") {
 			continue
 		}
-		f := strings.Fields(l)
-		if len(f) >= 2 {
-			if _, err := strconv.Atoi(f[0]); err == nil {
-				rows = append(rows, strings.TrimSpace(l[4:min(len(l), 4+48)]))
-			}
+		want := fmt.Sprintf("%-3d ", len(rows)+1)
+		if strings.HasPrefix(l, want) {
+			rows = append(rows, l[len(want):])
+		} else {
+			rows = append(rows, "?"+l) // not a row of the expected number: reported by the comparison
 		}
 	}
 	return rows
@@ -317,11 +325,13 @@ func TestC17_Search(t *testing.T) {
 				for i := range want {
 					wc := want[i].Command
 					if f == "table" {
+						// the command cell: the command itself, or its first 45 bytes and "..." when longer than 48
 						if len(wc) > 48 {
 							wc = wc[:45] + "..."
 						}
-						if strings.TrimSpace(wc) != got[i].Command {
-							t.Fatalf("table row %d shows %q, engine rank %d is %q; %s", i, got[i].Command, i, wc, ctx)
+						row := got[i].Command
+						if !strings.HasPrefix(row, wc) || (len(row) > len(wc) && row[len(wc)] != ' ') {
+							t.Fatalf("table row %d shows %q, engine rank %d is %q; %s", i, row, i, wc, ctx)
 						}
 						continue
 					}
